@@ -71,7 +71,7 @@ const profTypeID = "process_cpu:cpu:nanoseconds:cpu:nanoseconds"
 
 // selectors over the label `name`: parse and plan / do not parse / parse but do not plan
 func profSel(r *rand.Rand, name string) (string, string) {
-	switch k := r.Intn(12); {
+	switch k := r.Intn(20); {
 	case k == 0:
 		return []string{"", "{", "{" + name + "=}", name, "{" + name + `="b"`, "{" + name + `="b"} x`}[r.Intn(6)], "noparse"
 	case k == 1:
@@ -272,7 +272,7 @@ func profCase(r *rand.Rand, id int) *Case {
 		m.Left.Sel, m.Right.Sel = lk, rk
 		ltid, rtid := tid, tid
 		lq, rq := ltid+lsel, rtid+rsel
-		switch r.Intn(14) {
+		switch r.Intn(30) {
 		case 0:
 			m.TypesEqual = false
 			rq = "memory:alloc_space:bytes:space:bytes" + rsel
@@ -283,7 +283,7 @@ func profCase(r *rand.Rand, id int) *Case {
 		ts := func(v int64) string { return fmt.Sprint(v) }
 		c.Params = []KV{{"leftQuery", lq}, {"rightQuery", rq}, {"leftFrom", ts(m.Start)}, {"leftUntil", ts(m.End)},
 			{"rightFrom", ts(profTimes[r.Intn(len(profTimes))])}, {"rightUntil", ts(profTimes[r.Intn(len(profTimes))])}}
-		switch r.Intn(12) {
+		switch r.Intn(30) {
 		case 0:
 			m.BodyOk = false
 			k := r.Intn(len(c.Params))
